@@ -23,6 +23,9 @@ CHECKS = {
  "C08": dict(level="exploration", technique="property-based testing (proptest): generated libraries and rename sites, WorkspaceEdit applied to an in-memory copy and judged by independent re-scan (link tables, content fingerprints)",
    text="For generated libraries, every link occurrence to an existing note as rename site and free / taken / sub-directory names: the returned edit is applied to a copy and re-scanned; old key gone, new key present, every link resolves where it must with acceptable text, link counts and content fingerprints unchanged, unrelated notes untouched, taken names refused.",
    note="Edit shapes understood: create, delete, full-range replace, insert at start.", ref="7/C08"),
+ "C09": dict(level="exploration", technique="property-based testing (proptest): generated libraries, every offered extract/inline action applied to a copy; conservation oracles over unique word tokens, code bodies and the link table, placement oracles from an independent scan, extract-then-inline round trip",
+   text="Every offered extract-section, extract-sub-sections, inline-as-section and inline-as-quote action is resolved and applied to a copy: tokens, code bodies and links are conserved and keep their per-origin order, new notes start with the promoted heading and hold exactly the subtree, the source keeps one titled reference under the parent, inlined content lands under the section that held the reference, and extract + inline restores the library byte-for-byte.",
+   note="Production key generator; new names are opaque. The library is normalised first.", ref="7/C09"),
  "C10": dict(level="exploration", technique="property-based testing (proptest): generated notes, every offered conversion applied to a copy; token-sequence and link-sequence conservation, changed-region containment, and round-trip (inverse action requested on the edited text) oracles",
    text="Every offered section-to-list, list-to-sections and change-list-type action of a generated note is resolved and applied: words and links keep their sequence, the changed lines stay inside the targeted part as an independent scan delimits it, change-type twice and section-list-section restore the formatted original.",
    note="The note is normalised first. Round trips re-query the action after didChange.", ref="7/C10"),
